@@ -52,11 +52,6 @@ type c17State struct {
 	empty map[string]bool // Put(k, []byte{}) is the only simple content: "holds data" is undecided (see Assume)
 }
 
-type c17Viol struct {
-	Sig, What string
-	Replay    any
-}
-
 // c17Build empties the backend and creates the store through the real API.
 func c17Build(bk *backend, st c17Store) (*c17State, string) {
 	if err := bk.reset2(); err != nil {
@@ -424,7 +419,7 @@ func c17(c *report.Check) {
 	addViol := func(cs c17Case, msg string) { // dmu held
 		k := cs.Section + "/" + cs.Backend + "/" + cs.Dest
 		violCount[k]++
-		if violCount[k] <= 12 {
+		if violCount[k] <= 20000 { // all kept (bounded), the 12 smallest signatures per group are reported
 			viols = append(viols, vrec{cs, msg})
 		}
 	}
@@ -585,8 +580,29 @@ func c17(c *report.Check) {
 			}
 		}
 	}
-	sort.SliceStable(viols, func(i, j int) bool { return viols[i].cs.sig(viols[i].msg) < viols[j].cs.sig(viols[j].msg) })
+	// deterministic choice: fewest populated keys first, then by signature
+	pop := func(st c17Store) int {
+		n := 0
+		for _, k := range st.Kinds {
+			if k != 0 {
+				n++
+			}
+		}
+		return n
+	}
+	sort.SliceStable(viols, func(i, j int) bool {
+		if a, b := pop(viols[i].cs.Store), pop(viols[j].cs.Store); a != b {
+			return a < b
+		}
+		return viols[i].cs.sig(viols[i].msg) < viols[j].cs.sig(viols[j].msg)
+	})
+	reportedPer := map[string]int{}
 	for _, v := range viols {
+		k := v.cs.Section + "/" + v.cs.Backend + "/" + v.cs.Dest
+		reportedPer[k]++
+		if reportedPer[k] > 12 {
+			continue
+		}
 		c.Violation(v.cs.sig(v.msg), fmt.Sprintf("%s backend=%s store={%s}: %s", v.cs.Section, v.cs.Backend, v.cs.Store, v.msg), v.cs)
 	}
 	for _, m := range internal {
@@ -607,7 +623,7 @@ func c17(c *report.Check) {
 		"a key whose only content is Put(k, []byte{}) is undecided for RangeKeys membership and for the SIMPLE entry of ListKeys: C16's statement treats an empty value as absent, the repository's TestEmptyValueTransferRoundTrip pins that such a key is listed and transferred by sqlite; it must still never be listed outside the range; what each backend does is recorded in empty_value_only_keys_listed_by_rangekeys_0_0",
 		"simple values compared with empty == absent",
 		"logical clock fixed (vtime) while leases are created; lease token of a key read through Export",
-		"at most 12 violations reported per (section, backend pair); all are counted")
+		"at most 12 violations (those with the fewest populated keys, then smallest signature) are reported per (section, backend pair); all are counted")
 }
 
 func c17Replay(c *report.Check, raw []byte) {
